@@ -9,7 +9,7 @@ from .common import REAL_BUS, STUB_BUS, ASSUME_BUS, viol
 ID = "C03"
 ENGINE = "bussim"
 LEVEL = "exploration"
-RUNS = {"quick": 12000, "thorough": 600000}
+RUNS = {"quick": 30000, "thorough": 1500000}
 BUDGET_S = {"quick": 45, "thorough": 480}
 BATCH = 200
 RULE = ("fault-free configuration of the bus: a device driven by the real NMEA2000Encoder -> encode_ebyte / encode_usb / "
